@@ -1,2 +1,242 @@
-(** C07 — multiprotocol NLRI round trip (under construction) *)
-From YV Require Import lib.Base gen.Consts model.YMp model.YPrefix6 model.YLabel model.YVpn model.YLu.
+(** C07 — multiprotocol NLRI round trip: every in-range MP_REACH_NLRI / MP_UNREACH_NLRI value
+    decodes back to exactly itself.
+
+    Families proved here: IPv6 unicast, VPNv4, VPNv6, IPv4/IPv6 labeled unicast (MP_REACH).
+    IPv4 flowspec: model + correspondence + oracle, theorem for the operator lists only
+    (C07_flowspec_operators_roundtrip_partial).  EVPN: not modelled (oracle only).
+
+    Values: addresses are integers (text rendering is done by netaddr and is canonicalised by
+    the harness); [V4 n] / [V6 n] is the version netaddr.IPAddress(int) picks for the decoded
+    integer, so "decodes to itself" for an IPv6 value a means the decoder returns [V6 a].
+    The construct theorems give the whole attribute: flag, type, 2-octet length, value; the
+    decoder is applied to the value, as Update.parse_attributes does.
+
+    Prefix octets of VPN / labeled unicast routes are modelled as repaired by
+    build/proposed/c07-1-construct-prefix-v6.diff and c07-2-construct-prefix-v4-zero.diff. *)
+From YV Require Import lib.Base gen.Consts model.YMp model.YPrefix6 model.YLabel model.YVpn model.YLu
+  model.YFlow4
+  proof.MpPrefix6Proofs proof.MpLabelProofs proof.MpVpnProofs proof.MpLuProofs.
+
+(** ------------------------------------------------------------------ IPv6 unicast *)
+
+(** MP_REACH (2,1): every next hop (with / without link-local), every list of routes of every
+    prefix length 0..128, all addresses >= 2^32 *)
+Theorem C07_ipv6_unicast_roundtrip : forall g ll rs,
+  2 ^ 32 <= g < 2 ^ 128 -> (forall x, ll = Some x -> 2 ^ 32 <= x < 2 ^ 128) ->
+  Forall wf_route6 rs -> Forall (fun r => 2 ^ 32 <= fst r) rs -> len (reach6u_value g ll rs) <= 65535 ->
+  exists v, reach6u_construct g ll rs =
+              Ok ([c_ATTR_MpReachNLRI_FLAG; c_ATTR_MpReachNLRI_ID] ++ be 2 (len v) ++ v) /\
+            reach6u_parse v = Ok (V6 g, option_map V6 ll, map (fun r => (V6 (fst r), snd r)) rs).
+Proof. exact reach6u_roundtrip. Qed.
+Print Assumptions C07_ipv6_unicast_roundtrip.
+
+Example C07_ipv6_unicast_nonvacuous :
+  wf_route6 (2 ^ 125 + 2 ^ 95, 33) /\ 2 ^ 32 <= 2 ^ 125 + 2 ^ 95 /\
+  reach6u_parse (reach6u_value (2 ^ 125) (Some (2 ^ 127 + 1)) [(2 ^ 125 + 2 ^ 95, 33)]) =
+  Ok (V6 (2 ^ 125), Some (V6 (2 ^ 127 + 1)), [(V6 (2 ^ 125 + 2 ^ 95), 33)]).
+Proof. vm_compute. repeat split; discriminate. Qed.
+
+(** MP_UNREACH (2,1) *)
+Theorem C07_ipv6_unicast_unreach_roundtrip : forall rs,
+  rs <> [] -> Forall wf_route6 rs -> Forall (fun r => 2 ^ 32 <= fst r) rs ->
+  len (unreach6u_value rs) <= 65535 ->
+  exists v, unreach6u_construct rs =
+              Ok (Some ([c_ATTR_MpUnReachNLRI_FLAG; c_ATTR_MpUnReachNLRI_ID] ++ be 2 (len v) ++ v)) /\
+            unreach6u_parse v = Ok (map (fun r => (V6 (fst r), snd r)) rs).
+Proof. exact unreach6u_roundtrip. Qed.
+Print Assumptions C07_ipv6_unicast_unreach_roundtrip.
+
+(** exact behaviour on ALL in-range values (no lower bound on addresses): identity except that
+    values below 2^32 come back as IPv4 ([render]), provided the list does not end in two ::/0 *)
+Theorem C07_ipv6_unicast_behaviour : forall g ll rs,
+  g < 2 ^ 128 -> (forall x, ll = Some x -> x < 2 ^ 128) ->
+  Forall wf_route6 rs -> no_double_default rs -> len (reach6u_value g ll rs) <= 65535 ->
+  exists v, reach6u_construct g ll rs =
+              Ok ([c_ATTR_MpReachNLRI_FLAG; c_ATTR_MpReachNLRI_ID] ++ be 2 (len v) ++ v) /\
+            reach6u_parse v = Ok (render g, option_map render ll, map render_route rs).
+Proof. exact reach6u_behaviour. Qed.
+Print Assumptions C07_ipv6_unicast_behaviour.
+
+Theorem C07_ipv6_unicast_unreach_behaviour : forall rs,
+  rs <> [] -> Forall wf_route6 rs -> no_double_default rs -> len (unreach6u_value rs) <= 65535 ->
+  exists v, unreach6u_construct rs =
+              Ok (Some ([c_ATTR_MpUnReachNLRI_FLAG; c_ATTR_MpUnReachNLRI_ID] ++ be 2 (len v) ++ v)) /\
+            unreach6u_parse v = Ok (map render_route rs).
+Proof. exact unreach6u_behaviour. Qed.
+Print Assumptions C07_ipv6_unicast_unreach_behaviour.
+
+(** defect: ::/0 comes back as 0.0.0.0/0 *)
+Theorem C07_ipv6_unicast_refuted_default_route :
+  reach6u_construct (2 ^ 125) None [(0, 0)] = Ok ([144; 14] ++ be 2 (len w_default) ++ w_default) /\
+  reach6u_parse w_default = Ok (V6 (2 ^ 125), None, [(V4 0, 0)]).
+Proof. exact refuted_default_route. Qed.
+Print Assumptions C07_ipv6_unicast_refuted_default_route.
+
+(** defect: any value below 2^32 (next hop ::1, prefix ::1.2.3.4/128) comes back as IPv4 *)
+Theorem C07_ipv6_unicast_refuted_low_address :
+  reach6u_construct 1 None [(16909060, 128)] = Ok ([144; 14] ++ be 2 (len w_low) ++ w_low) /\
+  reach6u_parse w_low = Ok (V4 1, None, [(V4 16909060, 128)]).
+Proof. exact refuted_low_address. Qed.
+Print Assumptions C07_ipv6_unicast_refuted_low_address.
+
+(** defect: two ::/0 routes decode to nothing *)
+Theorem C07_ipv6_unicast_refuted_double_default :
+  unreach6u_construct [(0, 0); (0, 0)] = Ok (Some ([144; 15] ++ be 2 (len w_dd) ++ w_dd)) /\
+  unreach6u_parse w_dd = Ok [].
+Proof. exact refuted_double_default. Qed.
+Print Assumptions C07_ipv6_unicast_refuted_double_default.
+
+(** ------------------------------------------------------------------ labels, route distinguishers *)
+
+(** every in-range RD of type 0, 1, 2 encodes on 8 octets and decodes to itself *)
+Theorem C07_rd_roundtrip : forall r, wf_rd r ->
+  exists b, construct_rd r = Ok b /\ length b = 8%nat /\ parse_rd b = Ok (PRd r).
+Proof. exact rd_roundtrip. Qed.
+Print Assumptions C07_rd_roundtrip.
+
+Example C07_rd_nonvacuous : wf_rd (RdAs 65535 (2 ^ 32 - 1)) /\ wf_rd (RdAs (2 ^ 32 - 1) 65535) /\ wf_rd (RdIp (2 ^ 32 - 1) 65535).
+Proof. cbn. repeat split; try (left; split; reflexivity || discriminate); try (right; repeat split; reflexivity || discriminate); reflexivity || discriminate. Qed.
+
+(** every label stack (any depth) of 20-bit labels whose last label is not 0 *)
+Theorem C07_label_stack_roundtrip : forall ls, wf_stack ls ->
+  exists b, construct_labels ls = Ok b /\ length b = (3 * length ls)%nat /\
+            forall rest, parse_labels (b ++ rest) = ls.
+Proof. exact label_stack_roundtrip. Qed.
+Print Assumptions C07_label_stack_roundtrip.
+
+(** defect: a last label 0 is written without the bottom-of-stack bit; the decoder reads on *)
+Theorem C07_label_refuted_zero_without_bottom_of_stack :
+  construct_labels [0] = Ok [0; 0; 0] /\
+  parse_labels ([0; 0; 0] ++ [0; 0; 0; 100; 0; 0; 0; 1]) = [0; 0; 409600].
+Proof. exact refuted_label_zero_no_bottom_of_stack. Qed.
+Print Assumptions C07_label_refuted_zero_without_bottom_of_stack.
+
+(** ------------------------------------------------------------------ VPNv4 / VPNv6 *)
+
+(** MP_REACH (1|2,128): next hop RD asn:an + address, every list of routes with one label
+    1..2^20-1, every RD type, every prefix length 0..32 / 0..128; [v6 = false] VPNv4,
+    [v6 = true] VPNv6 with addresses >= 2^32 *)
+Theorem C07_vpn_roundtrip : forall v6 asn an ip rs,
+  asn <= 65535 -> an < 2 ^ 32 -> ip < 2 ^ abits v6 -> (v6 = true -> 2 ^ 32 <= ip) ->
+  Forall (wf_vroute v6) rs -> Forall one_label rs ->
+  Forall (fun r => v6 = true -> 2 ^ 32 <= v_addr r) rs ->
+  forall nlri, construct_vpn v6 false rs = Ok nlri -> len nlri <= 65000 ->
+  exists v, reachvpn_construct v6 asn an ip rs =
+              Ok ([c_ATTR_MpReachNLRI_FLAG; c_ATTR_MpReachNLRI_ID] ++ be 2 (len v) ++ v) /\
+            reachvpn_parse v6 v =
+              Ok (PRd (RdAs asn an), (if v6 then V6 ip else V4 ip),
+                  map (fun r => (v_labels r, PRd (v_rd r), (if v6 then V6 (v_addr r) else V4 (v_addr r)), v_len r)) rs).
+Proof. exact reachvpn_roundtrip. Qed.
+Print Assumptions C07_vpn_roundtrip.
+
+(** exact behaviour without the lower bound on IPv6 addresses *)
+Theorem C07_vpn_behaviour : forall v6 asn an ip rs,
+  asn <= 65535 -> an < 2 ^ 32 -> ip < 2 ^ abits v6 ->
+  Forall (wf_vroute v6) rs -> Forall one_label rs ->
+  forall nlri, construct_vpn v6 false rs = Ok nlri -> len nlri <= 65000 ->
+  exists v, reachvpn_construct v6 asn an ip rs =
+              Ok ([c_ATTR_MpReachNLRI_FLAG; c_ATTR_MpReachNLRI_ID] ++ be 2 (len v) ++ v) /\
+            reachvpn_parse v6 v = Ok (PRd (RdAs asn an), vaddr v6 ip, map (expect_proute v6 false) rs).
+Proof. exact reachvpn_behaviour. Qed.
+Print Assumptions C07_vpn_behaviour.
+
+(** MP_UNREACH (1|2,128): the decoder reports the withdraw label 524288 for every route *)
+Theorem C07_vpn_unreach_behaviour : forall v6 rs,
+  rs <> [] -> Forall (wf_vroute v6) rs ->
+  forall nlri, construct_vpn v6 true rs = Ok nlri -> len nlri <= 65000 ->
+  exists v, unreachvpn_construct v6 rs =
+              Ok (Some ([c_ATTR_MpUnReachNLRI_FLAG; c_ATTR_MpUnReachNLRI_ID] ++ be 2 (len v) ++ v)) /\
+            unreachvpn_parse v6 v = Ok (map (expect_proute v6 true) rs).
+Proof. exact unreachvpn_behaviour. Qed.
+Print Assumptions C07_vpn_unreach_behaviour.
+
+(** the encoder succeeds on every in-range list (the hypothesis "construct_vpn ... = Ok nlri" holds) *)
+Theorem C07_vpn_construct_total : forall v6 withdraw rs,
+  Forall (wf_vroute v6) rs -> (withdraw = false -> Forall one_label rs) ->
+  exists nlri, construct_vpn v6 withdraw rs = Ok nlri.
+Proof. exact construct_vpn_total. Qed.
+Print Assumptions C07_vpn_construct_total.
+
+Example C07_vpn_nonvacuous :
+  wf_vroute false (mk_vroute [16] (RdIp 16909060 7) 167772160 8) /\
+  wf_vroute true (mk_vroute [2 ^ 20 - 1] (RdAs 70000 7) (2 ^ 125) 3) /\
+  parse_vpn_all true false [91; 255; 255; 241; 0; 2; 0; 1; 17; 112; 0; 7; 32] =
+    Ok [([2 ^ 20 - 1], PRd (RdAs 70000 7), V6 (2 ^ 125), 3)].
+Proof.
+  split; [|split]; [| |vm_compute; reflexivity]; unfold wf_vroute, wf_rd; cbn [v_len v_addr v_rd abits];
+    repeat split; try reflexivity; try discriminate; right; repeat split; reflexivity || discriminate.
+Qed.
+
+Theorem C07_vpn_refuted_label_zero :
+  construct_vpn false false [r_label0] = Ok [96; 0; 0; 0; 0; 0; 0; 100; 0; 0; 0; 1; 10] /\
+  parse_vpn_all false false [96; 0; 0; 0; 0; 0; 0; 100; 0; 0; 0; 1; 10] =
+    Ok [([0; 0; 409600; 16], PRd (RdAs 100 1), V4 167772160, 8)].
+Proof. exact refuted_vpnv4_label_zero. Qed.
+Print Assumptions C07_vpn_refuted_label_zero.
+
+Theorem C07_vpn_refuted_two_labels :
+  exists b, construct_vpn false false [r_two_labels] = Ok b /\
+            parse_vpn_all false false b = Ok [([16; 17], PRd (RdIp 285212672 25600), V4 266, 32)].
+Proof. exact refuted_vpnv4_two_labels. Qed.
+Print Assumptions C07_vpn_refuted_two_labels.
+
+Theorem C07_vpn_refuted_vpnv6_default_route :
+  construct_vpn true false [r_low6] = Ok [88; 0; 1; 1; 0; 0; 0; 100; 0; 0; 0; 1] /\
+  parse_vpn_all true false [88; 0; 1; 1; 0; 0; 0; 100; 0; 0; 0; 1] = Ok [([16], PRd (RdAs 100 1), V4 0, 0)].
+Proof. exact refuted_vpnv6_default_route. Qed.
+Print Assumptions C07_vpn_refuted_vpnv6_default_route.
+
+(** ------------------------------------------------------------------ labeled unicast *)
+
+(** MP_REACH (1|2,4): every next hop, every list of routes with any label stack whose last
+    label is not 0, every prefix length; IPv6 addresses >= 2^32 *)
+Theorem C07_labeled_unicast_roundtrip : forall v6 ip rs,
+  ip < 2 ^ abits v6 -> (v6 = true -> 2 ^ 32 <= ip) -> rs <> [] -> Forall (wf_lroute v6) rs ->
+  Forall (fun r => v6 = true -> 2 ^ 32 <= l_addr r) rs ->
+  forall nlri, construct_lu v6 false rs = Ok nlri -> len nlri <= 65000 ->
+  exists v, reachlu_construct v6 ip rs =
+              Ok (Some ([c_ATTR_MpReachNLRI_FLAG; c_ATTR_MpReachNLRI_ID] ++ be 2 (len v) ++ v)) /\
+            reachlu_parse v6 v =
+              Ok (Some (if v6 then V6 ip else V4 ip),
+                  map (fun r => (l_labels r, (if v6 then V6 (l_addr r) else V4 (l_addr r)), l_len r)) rs).
+Proof. exact reachlu_roundtrip. Qed.
+Print Assumptions C07_labeled_unicast_roundtrip.
+
+Theorem C07_labeled_unicast_behaviour : forall v6 ip rs,
+  ip < 2 ^ abits v6 -> rs <> [] -> Forall (wf_lroute v6) rs ->
+  forall nlri, construct_lu v6 false rs = Ok nlri -> len nlri <= 65000 ->
+  exists v, reachlu_construct v6 ip rs =
+              Ok (Some ([c_ATTR_MpReachNLRI_FLAG; c_ATTR_MpReachNLRI_ID] ++ be 2 (len v) ++ v)) /\
+            reachlu_parse v6 v = Ok (Some (vaddr v6 ip), map (expect_plroute v6) rs).
+Proof. exact reachlu_behaviour. Qed.
+Print Assumptions C07_labeled_unicast_behaviour.
+
+Theorem C07_labeled_unicast_construct_total : forall v6 rs,
+  Forall (wf_lroute v6) rs -> exists nlri, construct_lu v6 false rs = Ok nlri.
+Proof. exact construct_lu_total. Qed.
+Print Assumptions C07_labeled_unicast_construct_total.
+
+Example C07_labeled_unicast_nonvacuous :
+  wf_lroute false (mk_lroute [16; 0; 17] 167837952 24) /\
+  parse_lu_all false [96; 0; 1; 0; 0; 0; 0; 0; 1; 17; 10; 1; 1] = Ok [([16; 0; 17], V4 167837952, 24)].
+Proof. split; [|vm_compute; reflexivity]. unfold wf_lroute. cbn [l_len l_addr l_labels abits wf_stack length].
+  repeat split; try reflexivity; discriminate. Qed.
+
+Theorem C07_labeled_unicast_refuted_label_zero :
+  construct_lu false false [mk_lroute [0] 167837952 24] = Ok [48; 0; 0; 0; 10; 1; 1] /\
+  parse_lu_all false [48; 0; 0; 0; 10; 1; 1] = Ok [([0; 40976], V4 0, 0)].
+Proof. exact refuted_lu4_label_zero. Qed.
+Print Assumptions C07_labeled_unicast_refuted_label_zero.
+
+(** defect: MP_UNREACH for labeled unicast is constructed for IPv4 but never decoded ... *)
+Theorem C07_labeled_unicast_refuted_unreach_v4_not_parsed :
+  unreachlu_construct false [mk_lroute [WITHDRAW_LABEL] 167772160 8] = Ok (Some [144; 15; 0; 8; 0; 1; 4; 32; 128; 0; 0; 10]) /\
+  unreachlu_parse false [0; 1; 4; 32; 128; 0; 0; 10] = Ok None.
+Proof. exact refuted_lu4_unreach_not_parsed. Qed.
+Print Assumptions C07_labeled_unicast_refuted_unreach_v4_not_parsed.
+
+(** ... and not constructed at all for IPv6 *)
+Theorem C07_labeled_unicast_refuted_unreach_v6_not_constructed :
+  forall rs, unreachlu_construct true rs = Ok None.
+Proof. exact refuted_lu6_unreach_not_constructed. Qed.
+Print Assumptions C07_labeled_unicast_refuted_unreach_v6_not_constructed.
